@@ -329,6 +329,9 @@ OBJECTS: Dict[str, Tuple[Sp, str]] = {
     "list(S2)": (lst(S2), ""),
     "opt(A)": (opt(A), ""),
     "map(S3)": (mp(S3), ""),
+    # overlapping object alternatives: the first accepting one decides the class of the result
+    "u(OvA,OvB)": (union(obj("OvA", F("x", INT, default=V("0"))), obj("OvB", F("x", INT, default=V("0")), F("y", INT, default=V("0")))), ""),
+    "u(OvB,OvA)": (union(obj("OvB", F("x", INT, default=V("0")), F("y", INT, default=V("0"))), obj("OvA", F("x", INT, default=V("0")))), ""),
     "u(S2,FL)": (union(S2, FL), ""),
     "u(S2,int)": (union(S2, INT), ""),
     "u(TD,list(int))": (union(TD, lst(INT)), ""),
@@ -496,6 +499,8 @@ UNION_EXTRA: Dict[str, Tuple[Sp, str]] = {
     "disc(flatten)": (disc("type", (("DF", "DF"), ("DA", "DA")), DF, DA), ""),
     "disc(props)": (disc("type", (("DP", "DP"), ("DA", "DA")), DP, DA), ""),
     "disc(addl)": (disc("type", (("DQ", "DQ"), ("DA", "DA")), obj("DQ", F("k", STR, default=V("''")), F("rest", mp(INT), default=Fy("dict"), properties=True)), DA), ""),
+    "u(OvA,OvB)": (union(obj("OvA", F("x", INT, default=V("0"))), obj("OvB", F("x", INT, default=V("0")), F("y", INT, default=V("0")))), ""),
+    "u(OvB,OvA)": (union(obj("OvB", F("x", INT, default=V("0")), F("y", INT, default=V("0"))), obj("OvA", F("x", INT, default=V("0")))), ""),
     "u(S2,FL)": (union(S2, FL), ""),
     "u(FL,S2)": (union(FL, S2), ""),
     "u(S2,S3)": (union(S2, S3), ""),
